@@ -4,6 +4,7 @@
   parsed Go program has (`else if` holds an if) and no `fallthrough` (the one legitimate rejection).
 -/
 import GoCo.Compile.Compile
+import GoCo.Compile.Shape
 set_option autoImplicit false
 
 namespace GoCo.MG
@@ -648,37 +649,6 @@ end
 
 /-! ### pass3 fails only on a `fallthrough` that is no longer inside a native switch -/
 
-mutual
-  def nftS : Stmt → Bool
-    | .fallthrough => false
-    | .block ss => nftL ss
-    | .ifs _ _ thn els => nftL thn && nftE els
-    | .switch _ _ cases => nftC cases
-    | .for_ _ _ _ body => nftL body
-    | .rete e => nftX e
-    | _ => true
-  def nftL : Stmts → Bool
-    | .nil => true
-    | .cons s r => nftS s && nftL r
-  def nftE : Else → Bool
-    | .none => true
-    | .els ss => nftL ss
-    | .elif s => nftS s
-  def nftC : Cases → Bool
-    | .nil => true
-    | .cons _ _ body r => nftL body && nftC r
-  def nftX : SExp → Bool
-    | .bind _ th => nftT th
-    | .delay th => nftT th
-    | .combine a b => nftX a && nftX b
-    | .loop _ _ body => nftX body
-    | .start a => nftX a
-    | _ => true
-  def nftT : Thunk → Bool
-    | .lam ss => nftL ss
-    | .fn _ => true
-end
-
 theorem rmRedundantReturn_total (q : Quirks) (hq : QOk q) (ss : Stmts) : Ok (rmRedundantReturn q ss) (fun _ => True) := by
   unfold rmRedundantReturn
   split
@@ -688,90 +658,90 @@ theorem rmRedundantReturn_total (q : Quirks) (hq : QOk q) (ss : Stmts) : Ok (rmR
 
 mutual
   theorem p3Stmt_total (q : Quirks) (hq : QOk q) :
-      ∀ (s : Stmt) (il isw : Bool), nftS s = true → Ok (p3Stmt q il isw s) (fun _ => True)
+      ∀ (s : Stmt) (il isw : Bool), woS s = true → Ok (p3Stmt q il isw s) (fun _ => True)
     | .brk, _, _, _ => by simp only [p3Stmt]; exact Ok.pure trivial
     | .cont, _, _, _ => by simp only [p3Stmt]; exact Ok.pure trivial
-    | .fallthrough, _, _, h => by simp [nftS] at h
+    | .fallthrough, _, _, h => by simp [woS] at h
     | .block ss, il, isw, h => by
-        simp only [nftS] at h
+        simp only [woS] at h
         simp only [p3Stmt]
         exact Ok.bind (p3Stmts_total q hq ss il isw h) (fun _ _ => Ok.pure trivial)
     | .ifs _ _ thn els, il, isw, h => by
-        simp only [nftS, Bool.and_eq_true] at h
+        simp only [woS, Bool.and_eq_true] at h
         simp only [p3Stmt]
         refine Ok.bind (p3Stmts_total q hq thn il isw h.1) (fun _ _ => ?_)
         exact Ok.bind (p3Else_total q hq els il isw h.2) (fun _ _ => Ok.pure trivial)
     | .switch _ _ cases, il, _, h => by
-        simp only [nftS] at h
+        simp only [woS] at h
         simp only [p3Stmt]
         exact Ok.bind (p3Cases_total q hq cases il true h) (fun _ _ => Ok.pure trivial)
     | .for_ _ _ _ body, _, isw, h => by
-        simp only [nftS] at h
+        simp only [woS] at h
         simp only [p3Stmt]
         exact Ok.bind (p3Stmts_total q hq body true isw h) (fun _ _ => Ok.pure trivial)
     | .rete e, _, _, h => by
-        simp only [nftS] at h
+        simp only [woS] at h
         simp only [p3Stmt]
         exact Ok.bind (p3SExp_total q hq e h) (fun _ _ => Ok.pure trivial)
     | .simple _, _, _, _ => by simp only [p3Stmt]; exact Ok.pure trivial
     | .ret, _, _, _ => by simp only [p3Stmt]; exact Ok.pure trivial
     | .unknown _, _, _, _ => by simp only [p3Stmt]; exact Ok.pure trivial
   theorem p3Stmts_total (q : Quirks) (hq : QOk q) :
-      ∀ (ss : Stmts) (il isw : Bool), nftL ss = true → Ok (p3Stmts q il isw ss) (fun _ => True)
+      ∀ (ss : Stmts) (il isw : Bool), woL ss = true → Ok (p3Stmts q il isw ss) (fun _ => True)
     | .nil, _, _, _ => by simp only [p3Stmts]; exact Ok.pure trivial
     | .cons s r, il, isw, h => by
-        simp only [nftL, Bool.and_eq_true] at h
+        simp only [woL, Bool.and_eq_true] at h
         simp only [p3Stmts]
         refine Ok.bind (p3Stmt_total q hq s il isw h.1) (fun _ _ => ?_)
         exact Ok.bind (p3Stmts_total q hq r il isw h.2) (fun _ _ => Ok.pure trivial)
   theorem p3Else_total (q : Quirks) (hq : QOk q) :
-      ∀ (e : Else) (il isw : Bool), nftE e = true → Ok (p3Else q il isw e) (fun _ => True)
+      ∀ (e : Else) (il isw : Bool), woE e = true → Ok (p3Else q il isw e) (fun _ => True)
     | .none, _, _, _ => by simp only [p3Else]; exact Ok.pure trivial
     | .els ss, il, isw, h => by
-        simp only [nftE] at h
+        simp only [woE] at h
         simp only [p3Else]
         exact Ok.bind (p3Stmts_total q hq ss il isw h) (fun _ _ => Ok.pure trivial)
     | .elif s, il, isw, h => by
-        simp only [nftE] at h
+        simp only [woE] at h
         simp only [p3Else]
         exact Ok.bind (p3Stmt_total q hq s il isw h) (fun _ _ => Ok.pure trivial)
   theorem p3Cases_total (q : Quirks) (hq : QOk q) :
-      ∀ (cs : Cases) (il isw : Bool), nftC cs = true → Ok (p3Cases q il isw cs) (fun _ => True)
+      ∀ (cs : Cases) (il isw : Bool), woC cs = true → Ok (p3Cases q il isw cs) (fun _ => True)
     | .nil, _, _, _ => by simp only [p3Cases]; exact Ok.pure trivial
     | .cons _ _ body r, il, isw, h => by
-        simp only [nftC, Bool.and_eq_true] at h
+        simp only [woC, Bool.and_eq_true] at h
         simp only [p3Cases]
         refine Ok.bind (p3Stmts_total q hq body il isw h.1) (fun _ _ => ?_)
         exact Ok.bind (p3Cases_total q hq r il isw h.2) (fun _ _ => Ok.pure trivial)
   theorem p3SExp_total (q : Quirks) (hq : QOk q) :
-      ∀ (e : SExp), nftX e = true → Ok (p3SExp q e) (fun _ => True)
+      ∀ (e : SExp), woX e = true → Ok (p3SExp q e) (fun _ => True)
     | .bind _ th, h => by
-        simp only [nftX] at h
+        simp only [woX] at h
         simp only [p3SExp]
         exact Ok.bind (p3Thunk_total q hq th h) (fun _ _ => Ok.pure trivial)
     | .delay th, h => by
-        simp only [nftX] at h
+        simp only [woX] at h
         simp only [p3SExp]
         exact Ok.bind (p3Thunk_total q hq th h) (fun _ _ => Ok.pure trivial)
     | .combine a b, h => by
-        simp only [nftX, Bool.and_eq_true] at h
+        simp only [woX, Bool.and_eq_true] at h
         simp only [p3SExp]
-        refine Ok.bind (p3SExp_total q hq a h.1) (fun _ _ => ?_)
+        refine Ok.bind (p3SExp_total q hq a h.1.2) (fun _ _ => ?_)
         exact Ok.bind (p3SExp_total q hq b h.2) (fun _ _ => Ok.pure trivial)
     | .loop _ _ body, h => by
-        simp only [nftX] at h
+        simp only [woX, Bool.and_eq_true] at h
         simp only [p3SExp]
-        exact Ok.bind (p3SExp_total q hq body h) (fun _ _ => Ok.pure trivial)
+        exact Ok.bind (p3SExp_total q hq body h.2) (fun _ _ => Ok.pure trivial)
     | .start a, h => by
-        simp only [nftX] at h
+        simp only [woX] at h
         simp only [p3SExp]
         exact Ok.bind (p3SExp_total q hq a h) (fun _ _ => Ok.pure trivial)
     | .sig _, _ => by simp only [p3SExp]; exact Ok.pure trivial
     | .unknown _, _ => by simp only [p3SExp]; exact Ok.pure trivial
   theorem p3Thunk_total (q : Quirks) (hq : QOk q) :
-      ∀ (th : Thunk), nftT th = true → Ok (p3Thunk q th) (fun _ => True)
+      ∀ (th : Thunk), woT th = true → Ok (p3Thunk q th) (fun _ => True)
     | .lam ss, h => by
-        simp only [nftT] at h
+        simp only [woT] at h
         simp only [p3Thunk]
         refine Ok.bind (p3Stmts_total q hq ss false false h) (fun p _ => ?_)
         split
@@ -780,7 +750,7 @@ mutual
     | .fn _, _ => by simp only [p3Thunk]; exact Ok.pure trivial
 end
 
-/-! ### pass2 introduces no `fallthrough` -/
+/-! ### pass2 produces well-formed output: no `fallthrough`, pure combinator arguments -/
 
 /-- partial correctness: if `x` succeeds, its result satisfies `Q` -/
 def OkIf {ε α : Type} (x : Except ε α) (Q : α → Prop) : Prop := ∀ a, x = .ok a → Q a
@@ -802,12 +772,12 @@ theorem OkIf.throw {α : Type} {e : String} {Q : α → Prop} : OkIf (throw e : 
   intro b hb; cases hb
 theorem OkIf.triv {ε α : Type} (x : Except ε α) : OkIf x (fun _ => True) := fun _ _ => trivial
 
-/-- no `fallthrough` in any statement of the block -/
-def NF (b : Blk) : Prop := ∀ x ∈ b.items, nftS x.1 = true
+/-- every statement of the block is well-formed output (`woS`) -/
+def NF (b : Blk) : Prop := ∀ x ∈ b.items, woS x.1 = true
 
 theorem nf_mk0 (k : Kind) : NF (Blk.mk0 k) := fun _ hx => nomatch hx
 
-theorem nf_pushU {b : Blk} (h : NF b) {s : Stmt} (hs : nftS s = true) (k : Kind) : NF (b.pushU s k) := by
+theorem nf_pushU {b : Blk} (h : NF b) {s : Stmt} (hs : woS s = true) (k : Kind) : NF (b.pushU s k) := by
   intro x hx
   simp only [Blk.pushU, List.mem_cons] at hx
   rcases hx with rfl | hx
@@ -816,28 +786,28 @@ theorem nf_pushU {b : Blk} (h : NF b) {s : Stmt} (hs : nftS s = true) (k : Kind)
 
 theorem nf_markCombined {b : Blk} (h : NF b) : NF b.markCombined := h
 
-theorem nf_pushReturnU {b : Blk} (h : NF b) {e : SExp} (he : nftX e = true) (k : Kind) : NF (b.pushReturnU e k) := by
+theorem nf_pushReturnU {b : Blk} (h : NF b) {e : SExp} (he : woX e = true) (k : Kind) : NF (b.pushReturnU e k) := by
   intro x hx
   simp only [Blk.pushReturnU, Blk.pushU, List.mem_cons] at hx
   rcases hx with rfl | hx
-  · simpa [nftS] using he
+  · simpa [woS] using he
   · exact h x hx
 
-theorem push_nf {b : Blk} (h : NF b) {s : Stmt} (hs : nftS s = true) (k : Kind) : OkIf (b.push s k) NF := by
+theorem push_nf {b : Blk} (h : NF b) {s : Stmt} (hs : woS s = true) (k : Kind) : OkIf (b.push s k) NF := by
   unfold Blk.push
   exact OkIf.bind (OkIf.triv _) (fun _ _ => OkIf.pure (nf_pushU h hs k))
 
-theorem pushReturn_nf {b : Blk} (h : NF b) {e : SExp} (he : nftX e = true) (k : Kind) : OkIf (b.pushReturn e k) NF := by
+theorem pushReturn_nf {b : Blk} (h : NF b) {e : SExp} (he : woX e = true) (k : Kind) : OkIf (b.pushReturn e k) NF := by
   unfold Blk.pushReturn
   exact OkIf.bind (OkIf.triv _) (fun _ _ => OkIf.pure (nf_pushReturnU h he k))
 
-theorem nftL_ofList : ∀ (l : List Stmt), (∀ s ∈ l, nftS s = true) → nftL (Stmts.ofList l) = true
+theorem nftL_ofList : ∀ (l : List Stmt), (∀ s ∈ l, woS s = true) → woL (Stmts.ofList l) = true
   | [], _ => rfl
   | s :: r, h => by
-      simp only [Stmts.ofList, nftL, Bool.and_eq_true]
+      simp only [Stmts.ofList, woL, Bool.and_eq_true]
       exact ⟨h s (List.mem_cons_self ..), nftL_ofList r (fun x hx => h x (List.mem_cons_of_mem _ hx))⟩
 
-theorem nf_toStmts {b : Blk} (h : NF b) : nftL b.toStmts = true := by
+theorem nf_toStmts {b : Blk} (h : NF b) : woL b.toStmts = true := by
   unfold Blk.toStmts
   refine nftL_ofList _ (fun s hs => ?_)
   simp only [List.mem_map, List.mem_reverse] at hs
@@ -862,9 +832,9 @@ theorem nf_plug : ∀ (frames : List Frame) (fin : Blk), (∀ f ∈ frames, NFF 
       refine nf_plug fs _ (fun g hg => hf g (List.mem_cons_of_mem _ hg)) ?_
       have hff := hf f (List.mem_cons_self ..)
       cases f with
-      | bindF cur e => exact nf_pushReturnU hff (by simpa [nftX, nftT] using nf_toStmts h) _
+      | bindF cur e => exact nf_pushReturnU hff (by simpa [woX, woT] using nf_toStmts h) _
       | combF cur first =>
-          exact nf_pushReturnU hff.1 (by simp [nftX, nftT, nf_toStmts h, nf_toStmts hff.2]) _
+          exact nf_pushReturnU hff.1 (by simp [woX, woT, pureX, nf_toStmts h, nf_toStmts hff.2]) _
 
 theorem nff_nil : ∀ f ∈ ([] : List Frame), NFF f := fun _ hf => nomatch hf
 
@@ -882,8 +852,8 @@ theorem combineIfNecessary_nf (q : Quirks) {b : Blk} (h : NF b) :
   · exact OkIf.pure ⟨h, nff_nil⟩
   · rename_i s k rest hi
     simp only [Blk.markCombined] at hi
-    have hs : nftS s = true := h (s, k) (by rw [hi]; exact List.mem_cons_self ..)
-    have hrest : ∀ x ∈ rest, nftS x.1 = true := fun x hx => h x (by rw [hi]; exact List.mem_cons_of_mem _ hx)
+    have hs : woS s = true := h (s, k) (by rw [hi]; exact List.mem_cons_self ..)
+    have hrest : ∀ x ∈ rest, woS x.1 = true := fun x hx => h x (by rw [hi]; exact List.mem_cons_of_mem _ hx)
     split
     · exact OkIf.pure ⟨h, nff_nil⟩
     · refine OkIf.bind (push_nf (nf_mk0 _) hs k) (fun c hc => ?_)
@@ -899,24 +869,24 @@ def NFSR : SR → Prop
   | .stop c => NF c
   | .go fol frames => NF fol ∧ ∀ f ∈ frames, NFF f
 
-theorem nftE_unwrapIf (ss : Stmts) (h : nftL ss = true) : nftE (unwrapIf ss) = true := by
+theorem nftE_unwrapIf (ss : Stmts) (h : woL ss = true) : woE (unwrapIf ss) = true := by
   unfold unwrapIf
   split
-  · simpa [nftE, nftL] using h
-  · simpa [nftE] using h
+  · simpa [woE, woL] using h
+  · simpa [woE] using h
 
 theorem ifPush_nf (init : Option Simple) (c : CondE) (thn : Stmts) (els : Else) (body : Blk) (e : Option Blk)
-    {cur : Blk} (hthn : nftL thn = true) (hels : nftE els = true) (hbody : NF body)
+    {cur : Blk} (hthn : woL thn = true) (hels : woE els = true) (hbody : NF body)
     (he : ∀ e', e = some e' → NF e') (h : NF cur) : OkIf (ifPush init c thn els body e cur) NF := by
   unfold ifPush
   split
   · split
-    · exact push_nf h (by simp [nftS, hthn, hels]) _
-    · exact push_nf h (by simp [nftS, nf_toStmts hbody, nftE]) _
+    · exact push_nf h (by simp [woS, hthn, hels]) _
+    · exact push_nf h (by simp [woS, nf_toStmts hbody, woE]) _
   · rename_i e'
     split
-    · exact push_nf h (by simp [nftS, hthn, hels]) _
-    · exact push_nf h (by simp [nftS, nf_toStmts hbody, nftE_unwrapIf _ (nf_toStmts (he e' rfl))]) _
+    · exact push_nf h (by simp [woS, hthn, hels]) _
+    · exact push_nf h (by simp [woS, nf_toStmts hbody, nftE_unwrapIf _ (nf_toStmts (he e' rfl))]) _
 
 theorem rwInit_nf (i : Simple) {cur : Blk} (h : NF cur) : OkIf (rwInit i cur) NFSR := by
   cases i with
@@ -930,24 +900,24 @@ theorem rwInit_nf (i : Simple) {cur : Blk} (h : NF cur) : OkIf (rwInit i cur) NF
   | bpanic n => simp only [rwInit]; exact OkIf.bind (push_nf h rfl _) (fun b hb => OkIf.pure ⟨hb, nff_nil⟩)
   | def_ n => simp only [rwInit]; exact OkIf.bind (push_nf h rfl _) (fun b hb => OkIf.pure ⟨hb, nff_nil⟩)
 
-theorem go_pushed_nf {cur : Blk} (h : NF cur) {s : Stmt} (hs : nftS s = true) :
+theorem go_pushed_nf {cur : Blk} (h : NF cur) {s : Stmt} (hs : woS s = true) :
     OkIf (do pure (SR.go (← cur.push s .trivial) []) : Except String SR) NFSR :=
   OkIf.bind (push_nf h hs _) (fun _ hb => OkIf.pure ⟨hb, nff_nil⟩)
 
-theorem stop_pushed_nf {cur : Blk} (h : NF cur) {s : Stmt} (hs : nftS s = true) :
+theorem stop_pushed_nf {cur : Blk} (h : NF cur) {s : Stmt} (hs : woS s = true) :
     OkIf (do pure (SR.stop (← cur.push s .trivial)) : Except String SR) NFSR :=
   OkIf.bind (push_nf h hs _) (fun _ hb => OkIf.pure hb)
 
-theorem callFor_nf (q : Quirks) (cond : Option CondE) (post : Option Simple) (body : SExp) (hb : nftX body = true) :
-    OkIf (callFor q cond post body) (fun r => nftX r = true) := by
+theorem callFor_nf (q : Quirks) (cond : Option CondE) (post : Option Simple) (body : SExp) (hb : woX body = true)
+    (hpb : pureX body = true) : OkIf (callFor q cond post body) (fun r => woX r = true) := by
   unfold callFor
   split
   · split
     · exact OkIf.throw
-    · exact OkIf.pure (by simpa [nftX] using hb)
-  · exact OkIf.pure (by simpa [nftX] using hb)
+    · exact OkIf.pure (by simp [woX, hb, hpb])
+  · exact OkIf.pure (by simp [woX, hb, hpb])
 
-theorem for_tail_nf (q : Quirks) (cond : Option CondE) (post : Option Simple) (body : Stmts) (hbody : nftL body = true)
+theorem for_tail_nf (q : Quirks) (cond : Option CondE) (post : Option Simple) (body : Stmts) (hbody : woL body = true)
     (b : Blk) (hb : NF b) (x : Blk × List Frame) (h1 : NF x.1) (h2 : ∀ f ∈ x.2, NFF f) :
     OkIf (if (b.mustNoYield && !optIsYield post) = true then do
           let __x_1 ← combineIfNecessary q x.fst
@@ -980,10 +950,10 @@ theorem for_tail_nf (q : Quirks) (cond : Option CondE) (post : Option Simple) (b
             pure (SR.go __do_lift (__x_1.snd ++ x.snd))) NFSR := by
   split
   · refine OkIf.bind (combineIfNecessary_nf q h1) (fun p hp => ?_)
-    refine OkIf.bind (push_nf hp.1 (by simpa [nftS] using hbody) _) (fun c hc => ?_)
+    refine OkIf.bind (push_nf hp.1 (by simpa [woS] using hbody) _) (fun c hc => ?_)
     exact OkIf.pure ⟨hc, nff_append hp.2 h2⟩
   · split
-    · refine OkIf.bind (callFor_nf q _ _ _ (by simpa [nftX, nftT] using nf_toStmts hb)) (fun call hcall => ?_)
+    · refine OkIf.bind (callFor_nf q _ _ _ (by simpa [woX, woT] using nf_toStmts hb) rfl) (fun call hcall => ?_)
       refine OkIf.bind (combineIfNecessary_nf q h1) (fun p hp => ?_)
       refine OkIf.bind (pushReturn_nf hp.1 hcall _) (fun c hc => ?_)
       exact OkIf.pure ⟨hc, nff_append hp.2 h2⟩
@@ -993,25 +963,25 @@ theorem for_tail_nf (q : Quirks) (cond : Option CondE) (post : Option Simple) (b
       · split
         · refine OkIf.bind (genLast_nf q hb) (fun b2 hb2 => ?_)
           refine pushReturn_nf (nf_mk0 _) ?_ _
-          simp only [nftX, nftT, Bool.and_eq_true]
+          simp only [woX, woT, pureX, Bool.and_eq_true, true_and]
           refine ⟨nf_toStmts hb2, nf_toStmts (nf_pushReturnU (nf_mk0 _) ?_ _)⟩
-          simpa [nftX, nftT] using nf_toStmts hnt
-        · exact pushReturn_nf (nf_markCombined hb) (by simpa [nftX, nftT] using nf_toStmts hnt) _
-      · refine OkIf.bind (callFor_nf q _ _ _ (by simpa [nftX, nftT] using nf_toStmts hb')) (fun call hcall => ?_)
+          simpa [woX, woT] using nf_toStmts hnt
+        · exact pushReturn_nf (nf_markCombined hb) (by simpa [woX, woT] using nf_toStmts hnt) _
+      · refine OkIf.bind (callFor_nf q _ _ _ (by simpa [woX, woT] using nf_toStmts hb') rfl) (fun call hcall => ?_)
         refine OkIf.bind (combineIfNecessary_nf q h1) (fun p hp => ?_)
         refine OkIf.bind (pushReturn_nf hp.1 hcall _) (fun c hc => ?_)
         exact OkIf.pure ⟨hc, nff_append hp.2 h2⟩
 
 mutual
   theorem rwStmts_nf (q : Quirks) :
-      ∀ (ss : Stmts) (cur : Blk), nftL ss = true → NF cur → OkIf (rwStmts q ss cur) NF
+      ∀ (ss : Stmts) (cur : Blk), woL ss = true → NF cur → OkIf (rwStmts q ss cur) NF
     | .nil, cur, _, hc => by
         simp only [rwStmts]
         split
         · exact genLast_nf q hc
         · exact OkIf.pure hc
     | .cons s rest, cur, hw, hc => by
-        simp only [nftL, Bool.and_eq_true] at hw
+        simp only [woL, Bool.and_eq_true] at hw
         simp only [rwStmts]
         refine OkIf.bind (rwStmt_nf q s rest.isNil cur hw.1 hc) (fun r hr => ?_)
         cases r with
@@ -1031,13 +1001,13 @@ mutual
             exact OkIf.pure (nf_plug _ _ hfr (nf_plug _ _ hp.2 hfin))
 
   theorem rwStmt_nf (q : Quirks) :
-      ∀ (s : Stmt) (isLast : Bool) (cur : Blk), nftS s = true → NF cur → OkIf (rwStmt q s isLast cur) NFSR
+      ∀ (s : Stmt) (isLast : Bool) (cur : Blk), woS s = true → NF cur → OkIf (rwStmt q s isLast cur) NFSR
     | .simple (.yield e), isLast, cur, _, hc => by
         simp only [rwStmt]
         refine OkIf.bind (OkIf.triv _) (fun _ _ => ?_)
         split
         · refine OkIf.bind (genLast_nf q (nf_mk0 _)) (fun fol hfol => ?_)
-          exact OkIf.pure (nf_pushReturnU hc (by simpa [nftX, nftT] using nf_toStmts hfol) _)
+          exact OkIf.pure (nf_pushReturnU hc (by simpa [woX, woT] using nf_toStmts hfol) _)
         · refine OkIf.pure ⟨nf_mk0 _, fun f hf => ?_⟩
           simp only [List.mem_singleton] at hf; subst hf; exact hc
     | .simple .empty, _, cur, _, hc => by
@@ -1048,20 +1018,20 @@ mutual
     | .simple (.def_ n), _, cur, _, hc => by simp only [rwStmt]; exact go_pushed_nf hc rfl
     | .brk, _, cur, _, hc => by simp only [rwStmt]; exact stop_pushed_nf hc rfl
     | .cont, _, cur, _, hc => by simp only [rwStmt]; exact stop_pushed_nf hc rfl
-    | .fallthrough, _, cur, h, hc => by simp [nftS] at h
+    | .fallthrough, _, cur, h, hc => by simp [woS] at h
     | .ret, _, cur, _, hc => by simp only [rwStmt]; exact go_pushed_nf hc rfl
     | .rete e, _, cur, h, hc => by simp only [rwStmt]; exact go_pushed_nf hc h
     | .unknown t, _, cur, _, hc => by simp only [rwStmt]; exact go_pushed_nf hc rfl
     | .block ss, _, cur, hw, hc => by
-        simp only [nftS] at hw
+        simp only [woS] at hw
         simp only [rwStmt]
         refine OkIf.bind (rwStmts_nf q ss _ hw (nf_mk0 _)) (fun fol hfol => ?_)
         split
-        · exact go_pushed_nf hc (by simpa [nftS] using hw)
-        · refine OkIf.bind (pushReturn_nf hc (by simpa [nftX, nftT] using nf_toStmts hfol) _) (fun b hb => ?_)
+        · exact go_pushed_nf hc (by simpa [woS] using hw)
+        · refine OkIf.bind (pushReturn_nf hc (by simpa [woX, woT] using nf_toStmts hfol) _) (fun b hb => ?_)
           exact OkIf.pure ⟨hb, nff_nil⟩
     | .ifs init c thn els, isLast, cur, hw, hc => by
-        simp only [nftS, Bool.and_eq_true] at hw
+        simp only [woS, Bool.and_eq_true] at hw
         simp only [rwStmt]
         split
         · exact OkIf.bind OkIf.throw (fun _ (h : False) => h.elim)
@@ -1072,13 +1042,13 @@ mutual
         · exact OkIf.bind (genLast_nf q hcur') (fun c hc' => OkIf.pure hc')
         · exact OkIf.pure ⟨hcur', nff_nil⟩
     | .switch init tag cases, isLast, cur, hw, hc => by
-        simp only [nftS] at hw
+        simp only [woS] at hw
         simp only [rwStmt]
         refine OkIf.bind (rwCases_nf q cases hw) (fun p hp => ?_)
         obtain ⟨newCases, allTrivial⟩ := p
         dsimp only at hp ⊢
         split
-        · exact go_pushed_nf hc (by simpa [nftS] using hw)
+        · exact go_pushed_nf hc (by simpa [woS] using hw)
         · refine OkIf.bind (Q := fun (p : Blk × List Frame) => NF p.1 ∧ ∀ f ∈ p.2, NFF f) ?_ (fun p hp1 => ?_)
           · cases init with
             | none => exact OkIf.pure ⟨hc, nff_nil⟩
@@ -1104,9 +1074,9 @@ mutual
                       pure (SR.stop (plug (__x_2.snd ++ frames) __do_lift))
                     else pure (SR.go cur' (__x_2.snd ++ frames))) NFSR := by
               split
-              · exact OkIf.bind (push_nf h1 (by simpa [nftS] using hw) _) (fun b hb => OkIf.pure ⟨hb, h2⟩)
+              · exact OkIf.bind (push_nf h1 (by simpa [woS] using hw) _) (fun b hb => OkIf.pure ⟨hb, h2⟩)
               · refine OkIf.bind (combineIfNecessary_nf q h1) (fun p hp2 => ?_)
-                refine OkIf.bind (push_nf hp2.1 (by simpa [nftS] using hp) _) (fun cur' hcur' => ?_)
+                refine OkIf.bind (push_nf hp2.1 (by simpa [woS] using hp) _) (fun cur' hcur' => ?_)
                 split
                 · refine OkIf.bind (genLast_nf q hcur') (fun g hg => ?_)
                   exact OkIf.pure (nf_plug _ _ (nff_append hp2.2 h2) hg)
@@ -1115,11 +1085,11 @@ mutual
             · exact OkIf.bind OkIf.throw (fun _ (h : False) => h.elim)
             · exact tail
     | .for_ init cond post body, isLast, cur, hw, hc => by
-        simp only [nftS] at hw
+        simp only [woS] at hw
         simp only [rwStmt]
         refine OkIf.bind (rwStmts_nf q body _ hw (nf_mk0 _)) (fun b hb => ?_)
         split
-        · exact go_pushed_nf hc (by simpa [nftS] using hw)
+        · exact go_pushed_nf hc (by simpa [woS] using hw)
         · refine OkIf.bind (Q := fun (p : Blk × List Frame) => NF p.1 ∧ ∀ f ∈ p.2, NFF f) ?_ (fun p hp1 => ?_)
           · cases init with
             | none => exact OkIf.pure ⟨hc, nff_nil⟩
@@ -1134,21 +1104,21 @@ mutual
           · exact for_tail_nf q cond post body hw b hb p hp1.1 hp1.2
 
   theorem rwElse_nf (q : Quirks) :
-      ∀ (els : Else), nftE els = true → OkIf (rwElse q els) (fun r => ∀ e, r = some e → NF e)
+      ∀ (els : Else), woE els = true → OkIf (rwElse q els) (fun r => ∀ e, r = some e → NF e)
     | .none, _ => by simp only [rwElse]; exact OkIf.pure (fun e he => nomatch he)
     | .els ss, hw => by
-        simp only [nftE] at hw
+        simp only [woE] at hw
         simp only [rwElse]
         exact OkIf.bind (rwStmts_nf q ss _ hw (nf_mk0 _)) (fun b hb => OkIf.pure (fun e he => by cases he; exact hb))
     | .elif s, hw => by
-        simp only [nftE] at hw
+        simp only [woE] at hw
         simp only [rwElse]
         exact OkIf.bind (rwIfS_nf q s _ hw (nf_mk0 _)) (fun b hb => OkIf.pure (fun e he => by cases he; exact hb))
 
   theorem rwIfS_nf (q : Quirks) :
-      ∀ (s : Stmt) (cur : Blk), nftS s = true → NF cur → OkIf (rwIfS q s cur) NF
+      ∀ (s : Stmt) (cur : Blk), woS s = true → NF cur → OkIf (rwIfS q s cur) NF
     | .ifs init c thn els, cur, hw, hc => by
-        simp only [nftS, Bool.and_eq_true] at hw
+        simp only [woS, Bool.and_eq_true] at hw
         simp only [rwIfS]
         split
         · exact OkIf.bind OkIf.throw (fun _ (h : False) => h.elim)
@@ -1167,14 +1137,14 @@ mutual
     | .unknown _, _, _, _ => by simp only [rwIfS]; exact OkIf.throw
 
   theorem rwCases_nf (q : Quirks) :
-      ∀ (cs : Cases), nftC cs = true → OkIf (rwCases q cs) (fun r => nftC r.1 = true)
+      ∀ (cs : Cases), woC cs = true → OkIf (rwCases q cs) (fun r => woC r.1 = true)
     | .nil, _ => by simp only [rwCases]; exact OkIf.pure rfl
     | .cons d ks body r, hw => by
-        simp only [nftC, Bool.and_eq_true] at hw
+        simp only [woC, Bool.and_eq_true] at hw
         simp only [rwCases]
         refine OkIf.bind (rwStmts_nf q body _ hw.1 (nf_mk0 _)) (fun b hb => ?_)
         refine OkIf.bind (rwCases_nf q r hw.2) (fun p hp => ?_)
-        exact OkIf.pure (by simp [nftC, nf_toStmts hb, hp])
+        exact OkIf.pure (by simp [woC, nf_toStmts hb, hp])
 end
 
 
@@ -1271,22 +1241,22 @@ mutual
 end
 
 mutual
-  theorem p0Stmt_nft : ∀ s : Stmt, nftS s = true → nftS (p0Stmt s) = true
-    | .block ss, h => by simp only [nftS] at h; simp only [p0Stmt, nftS]; exact p0Stmts_nft ss h
+  theorem p0Stmt_nft : ∀ s : Stmt, woS s = true → woS (p0Stmt s) = true
+    | .block ss, h => by simp only [woS] at h; simp only [p0Stmt, woS]; exact p0Stmts_nft ss h
     | .ifs _ _ thn els, h => by
-        simp only [nftS, Bool.and_eq_true] at h
-        simp only [p0Stmt, nftS, Bool.and_eq_true]
+        simp only [woS, Bool.and_eq_true] at h
+        simp only [p0Stmt, woS, Bool.and_eq_true]
         exact ⟨p0Stmts_nft thn h.1, p0Else_nft els h.2⟩
     | .switch init _ cases, h => by
-        simp only [nftS] at h
+        simp only [woS] at h
         have hc := p0Cases_nft cases h
         simp only [p0Stmt]
-        split <;> simp [nftS, nftL, hc]
+        split <;> simp [woS, woL, hc]
     | .for_ init _ _ body, h => by
-        simp only [nftS] at h
+        simp only [woS] at h
         have hc := p0Stmts_nft body h
         simp only [p0Stmt]
-        split <;> simp [nftS, nftL, hc]
+        split <;> simp [woS, woL, hc]
     | .simple _, _ => rfl
     | .brk, _ => rfl
     | .cont, _ => rfl
@@ -1294,26 +1264,26 @@ mutual
     | .ret, _ => rfl
     | .rete _, h => h
     | .unknown _, _ => rfl
-  theorem p0Stmts_nft : ∀ ss : Stmts, nftL ss = true → nftL (p0Stmts ss) = true
+  theorem p0Stmts_nft : ∀ ss : Stmts, woL ss = true → woL (p0Stmts ss) = true
     | .nil, _ => rfl
     | .cons s r, h => by
-        simp only [nftL, Bool.and_eq_true] at h
-        simp only [p0Stmts, nftL, Bool.and_eq_true]
+        simp only [woL, Bool.and_eq_true] at h
+        simp only [p0Stmts, woL, Bool.and_eq_true]
         exact ⟨p0Stmt_nft s h.1, p0Stmts_nft r h.2⟩
-  theorem p0Else_nft : ∀ e : Else, nftE e = true → nftE (p0Else e) = true
+  theorem p0Else_nft : ∀ e : Else, woE e = true → woE (p0Else e) = true
     | .none, _ => rfl
-    | .els ss, h => by simp only [nftE] at h; simp only [p0Else, nftE]; exact p0Stmts_nft ss h
-    | .elif s, h => by simp only [nftE] at h; simp only [p0Else, nftE]; exact p0Stmt_nft s h
-  theorem p0Cases_nft : ∀ cs : Cases, nftC cs = true → nftC (p0Cases cs) = true
+    | .els ss, h => by simp only [woE] at h; simp only [p0Else, woE]; exact p0Stmts_nft ss h
+    | .elif s, h => by simp only [woE] at h; simp only [p0Else, woE]; exact p0Stmt_nft s h
+  theorem p0Cases_nft : ∀ cs : Cases, woC cs = true → woC (p0Cases cs) = true
     | .nil, _ => rfl
     | .cons _ _ body r, h => by
-        simp only [nftC, Bool.and_eq_true] at h
-        simp only [p0Cases, nftC, Bool.and_eq_true]
+        simp only [woC, Bool.and_eq_true] at h
+        simp only [p0Cases, woC, Bool.and_eq_true]
         exact ⟨p0Stmts_nft body h.1, p0Cases_nft r h.2⟩
 end
 
 /-- the grammar on which the compiler is total: every parsed body without a `fallthrough` statement -/
-def InGrammar (body : Stmts) : Bool := srcL body && nftL body
+def InGrammar (body : Stmts) : Bool := srcL body && woL body
 
 /-- **compile_total**: on the repaired tree the per-function pipeline accepts every body of the grammar -
     blocks, if / else-if chains, expression switches (tagged or tag-less, with or without init), all
@@ -1325,7 +1295,7 @@ theorem compile_total (q : Quirks) (hq : QOk q) (body : Stmts) (hg : InGrammar b
   unfold compile
   obtain ⟨b, hb, _⟩ := rwStmts_total q hq (p0Stmts body) (Blk.mk0 .delay) (p0Stmts_wf body hg.1) (ready_mk0 (.inl rfl))
   have hnf : NF b := rwStmts_nf q (p0Stmts body) (Blk.mk0 .delay) (p0Stmts_nft body hg.2) (nf_mk0 _) b hb
-  obtain ⟨th, hth, _⟩ := p3Thunk_total q hq (.lam b.toStmts) (by simpa [nftT] using nf_toStmts hnf)
+  obtain ⟨th, hth, _⟩ := p3Thunk_total q hq (.lam b.toStmts) (by simpa [woT] using nf_toStmts hnf)
   exact ⟨_, by rw [hb]; show (p3Thunk q (.lam b.toStmts) >>= _) = _; rw [hth]; rfl⟩
 
 theorem compile_total_current (body : Stmts) (hg : InGrammar body = true) :
